@@ -113,6 +113,11 @@ func (L *c19Launch) witness() map[string]any {
 
 // launch starts the binary with setting s given through the listed channels.
 func (x *c19ctx) launch(s *c19Setting, assigns []c19Assign, waitListen bool) *c19Launch {
+	return x.launchEnv(s, assigns, waitListen, nil)
+}
+
+// launchEnv: like launch, with additional environment variables (settings other than s given on the side).
+func (x *c19ctx) launchEnv(s *c19Setting, assigns []c19Assign, waitListen bool, extraEnv []string) *c19Launch {
 	id := x.seq.Add(1)
 	base := filepath.Join(x.e.Scratch, "c19", fmt.Sprintf("%04d", id))
 	cwd, home, xdg, root := filepath.Join(base, "cwd"), filepath.Join(base, "home"), filepath.Join(base, "xdg"), filepath.Join(base, "root")
@@ -121,7 +126,7 @@ func (x *c19ctx) launch(s *c19Setting, assigns []c19Assign, waitListen bool) *c1
 	}
 	must(os.WriteFile(filepath.Join(root, "markerW.txt"), []byte("w"), 0o644))
 	L := &c19Launch{base: base, root: root, files: map[string]string{}, assigns: assigns, settingN: s.name}
-	L.env = []string{"HOME=" + home, "XDG_CONFIG_HOME=" + xdg}
+	L.env = append([]string{"HOME=" + home, "XDG_CONFIG_HOME=" + xdg}, extraEnv...)
 	var global, flags []string
 	writeIni := func(path, val string) {
 		must(os.MkdirAll(filepath.Dir(path), 0o755))
@@ -858,15 +863,26 @@ func (x *c19ctx) cmdNamedDirs(ch string) {
 }
 
 // malformed: the value must stop start-up (exit status != 0, never "Listening").
-func (x *c19ctx) malformed(s *c19Setting, ch, val, label string) {
+func (x *c19ctx) malformed(s *c19Setting, ch, val, label string) { x.malformedEnv(s, ch, val, label, false) }
+
+// malformedEnv: with withDebugServer the debug server is enabled on the side (environment variable): a
+// second listener of the same process must not keep a start-up alive that the invalid value has to stop.
+func (x *c19ctx) malformedEnv(s *c19Setting, ch, val, label string, withDebugServer bool) {
 	run := x.e.Run
 	feature := s.name + "/" + ch
+	var extraEnv []string
+	if withDebugServer {
+		feature += "+debug-server"
+		label += ", debug server enabled"
+		extraEnv = []string{"PS3NETSRV_DEBUG_SERVER_LISTEN_ADDR=127.0.0.1:0"}
+	}
+	keptRunning := 0
 	assigns := []c19Assign{{ch, val}}
 	var lastL *c19Launch
 	accepted := 0
 	var notes []string
 	for a := 0; a < 2; a++ {
-		L := x.launch(s, assigns, false)
+		L := x.launchEnv(s, assigns, false, extraEnv)
 		lastL = L
 		run.Eval(1)
 		run.Count("launches", 1)
@@ -920,10 +936,19 @@ func (x *c19ctx) malformed(s *c19Setting, ch, val, label string) {
 		case exited:
 			run.Inconclusive(fmt.Sprintf("malformed %s: exited with status 0 without listening", c19Desc(s, assigns)))
 			return
+		case withDebugServer && c19DbgSrv.MatchString(L.p.Stderr()):
+			// still running after 10 s, its debug server up: start-up was not stopped
+			keptRunning++
+			notes = append(notes, "kept running with only its debug server listening, no exit status")
+			continue
 		default:
 			run.Inconclusive(fmt.Sprintf("malformed %s: neither exited nor listening after 10 s", c19Desc(s, assigns)))
 			return
 		}
+	}
+	if keptRunning == 2 {
+		run.Violate("invalid-not-stopped", feature, fmt.Sprintf("%s (%s): the binary did not stop; in 2 of 2 fresh launches it %s", c19Desc(s, assigns), label, strings.Join(notes, " | ")), lastL.witness())
+		return
 	}
 	if accepted == 2 {
 		run.Violate("invalid-accepted", feature, fmt.Sprintf("%s (%s): the binary did not stop; in 2 of 2 fresh launches it %s", c19Desc(s, assigns), label, strings.Join(notes, " | ")), lastL.witness())
@@ -973,6 +998,29 @@ func C19(e *Env) {
 			cases = append(cases, func() {
 				if x.judged(s, []c19Assign{{ch, s.prim.val}}, s.prim.state, "no-effect", s.name+"/"+ch, "setting-via-"+ch) {
 					run.Sig("%s via %s -> effect observed", s.name, ch)
+					effects.Add(1)
+				}
+			})
+		}
+	}
+	// 1b. "each with the same observable effect": a value is taken as it is written, whichever channel
+	// carries it — a served directory whose name contains characters that mean something to shells,
+	// environments and INI dialects ($NAME, ${NAME}, %(key)s, a blank, #) is that directory
+	{
+		odd := filepath.Join(e.Dir("c19/shared"), "ga$mes ${HOME} %(root)s $PS3NETSRV_ROOT +x")
+		must(os.MkdirAll(odd, 0o755))
+		must(os.WriteFile(filepath.Join(odd, "markerA.txt"), []byte("A"), 0o644))
+		// what an expansion would lead to exists as well, and is somebody else's directory
+		for _, decoy := range []string{"ga", "ga  %(root)s  +x", "ga " + " %(root)s  +x"} {
+			must(os.MkdirAll(filepath.Join(e.Dir("c19/shared"), decoy), 0o755))
+		}
+		oddRoot := &c19Setting{name: "root", env: "PS3NETSRV_ROOT", prim: c19Value{odd, "root-sees:A"}, alt: c19Value{x.rootB, "root-sees:B"}, def: "root-sees:none", attempts: 2}
+		for _, ch := range c19Channels {
+			ch := ch
+			nSingle++
+			cases = append(cases, func() {
+				if x.judged(oddRoot, []c19Assign{{ch, odd}}, "root-sees:A", "no-effect", "root/"+ch+"+verbatim-value", "verbatim-value-via-"+ch) {
+					run.Sig("root with $, %%(..)s and blanks in its name via %s -> that directory served", ch)
 					effects.Add(1)
 				}
 			})
@@ -1060,6 +1108,10 @@ func C19(e *Env) {
 			b, ch := b, ch
 			nMal++
 			cases = append(cases, func() { x.malformed(byName[b.s], ch, b.val, b.label) })
+			if ch == c19Flag || (ch == c19Ini && b.val != "" && b.quickAll) {
+				nMal++
+				cases = append(cases, func() { x.malformedEnv(byName[b.s], ch, b.val, b.label, true) })
+			}
 		}
 	}
 	// 5. absent-setting controls
